@@ -375,7 +375,12 @@ class IPPO(MultiAgentRLAlgorithm):
         :rtype: torch.Tensor[float] or dict[str, torch.Tensor[float]] or Tuple[torch.Tensor[float], ...]
         """
         preprocessed = {homo_id: [] for homo_id in self.shared_agent_ids}
-        for agent_id, obs in observation.items():
+        # Canonical agent order, whatever the order of the observation dictionary: the rows of
+        # a shared policy's batch are handed back to self.homogeneous_agents by position
+        for agent_id in self.agent_ids:
+            if agent_id not in observation:
+                continue
+            obs = observation[agent_id]
             homo_id = self.get_homo_id(agent_id)
             preprocessed[homo_id].append(
                 preprocess_observation(
